@@ -14,7 +14,10 @@ M1 (restart) — what the server does with a persisted tick log when it starts
   was processed (ticks are persisted without it): `clk i` below.  A reducer exception
   (`crash`) propagates: `none`.
 * `handler_status_from_exit_command`.
-* `TickPersistenceDecorator.context_from_ticks`: no ticks and no legacy ctx → `None`; start
+* `TickPersistenceDecorator.context_from_ticks`: validates the workflow first (repair `fix-C13`:
+  the catch_error tables of the configuration are built by validation, so replay reduces with the
+  same `cfg` as the live run — before the repair it reduced with empty handler tables on a freshly
+  started server); no ticks and no legacy ctx → `None`; start
   from the legacy ctx (`BrokerState.from_serialized`) if the store has one, else from
   `BrokerState.from_workflow`; replay; `to_serialized` → `Context.from_dict` (= `roundtrip`).
 * `PersistenceDecorator._on_server_start`: handlers with status `running`, a registered
